@@ -149,7 +149,7 @@ def regex_is_valid(pat):
     return True, '%d top-level alternatives, %d symbol literals, balanced and within the supported subset' % (len(info.alts), len(info.symbols or []))
 
 def tokenizer_pattern(lib):
-    for name, t in lib.thir.items():
+    for name, t in lib.ithir.items():
         if 'TOKENIZER' in name and '__static_ref_initialize' in name:
             for e in walk(t['body']):
                 if e['k'] == 'Call' and callee_name(e) == 'regex::Regex::new':
@@ -160,7 +160,7 @@ def tokenizer_pattern(lib):
 # ---------------------------------------------------------------- table extraction
 def tokenize_tables(lib):
     """{group: {spelling: token}} for the symbol / identifier matches of tokenize, plus handled groups in order"""
-    t = lib.thir.get(PARSER + 'tokenize')
+    t = lib.ithir.get(PARSER + 'tokenize')
     out = {'groups': [], 'tables': {}, 'fallthrough': {}}
     if t is None: return None
     def visit_iflet(e):
@@ -209,7 +209,7 @@ def match_token_table(thir, result_adt):
 
 def fixed_point_dispatch(lib):
     """token -> literal Boolean passed to parse_fixed_point in parse_simple_sub_formula"""
-    t = lib.thir.get(PARSER + 'parse_simple_sub_formula')
+    t = lib.ithir.get(PARSER + 'parse_simple_sub_formula')
     out = {}
     if t is None: return out
     for m in walk(t['body']):
@@ -225,7 +225,7 @@ def fixed_point_dispatch(lib):
     return out
 
 def tte_tables(lib):
-    t = lib.thir.get('rsbdd::truth_table::TruthTableEntry::matches')
+    t = lib.ithir.get('rsbdd::truth_table::TruthTableEntry::matches')
     out = {}
     if t is None: return None
     for m in walk(t['body']):
@@ -278,7 +278,7 @@ def rule_tokens(F, R, scope):
 def rule_operator_tables(F, R, which=('binop', 'countop', 'fixpoint')):
     lib = F.lib()
     if 'binop' in which:
-        t = lib.thir.get(PARSER + 'parse_binary_operator')
+        t = lib.ithir.get(PARSER + 'parse_binary_operator')
         tab = match_token_table(t, 'rsbdd::parser::BinaryOperator') if t else {}
         for tok, op in sorted(REF_BINOP.items()):
             got = tab.get(tok)
@@ -292,7 +292,7 @@ def rule_operator_tables(F, R, which=('binop', 'countop', 'fixpoint')):
         for tok in extra:
             R.violation('rsbdd::parser::SymbolicBDD::parse_binary_operator / T / extra %s' % tok, 'T', 'token %s is accepted as a binary operator but is not one' % tok)
         # the look-ahead set in parse_sub_formula must be the same set of tokens
-        ts = lib.thir.get(PARSER + 'parse_sub_formula')
+        ts = lib.ithir.get(PARSER + 'parse_sub_formula')
         la = set()
         if ts:
             for m in walk(ts['body']):
@@ -308,7 +308,7 @@ def rule_operator_tables(F, R, which=('binop', 'countop', 'fixpoint')):
             R.violation('rsbdd::parser::SymbolicBDD::parse_sub_formula / T / operator look-ahead', 'T',
                         'tokens that continue a sub-formula %s differ from the binary operator tokens %s' % (sorted(la), sorted(REF_BINOP)))
     if 'countop' in which:
-        t = lib.thir.get(PARSER + 'parse_countable_formula')
+        t = lib.ithir.get(PARSER + 'parse_countable_formula')
         tab = match_token_table(t, 'rsbdd::parser::CountableOperator') if t else {}
         for tok, op in sorted(REF_COUNTOP.items()):
             got = tab.get(tok)
@@ -330,7 +330,7 @@ def rule_operator_tables(F, R, which=('binop', 'countop', 'fixpoint')):
                 R.violation('rsbdd::parser::SymbolicBDD::parse_simple_sub_formula / T / %s' % tok, 'T',
                             '%s starts the iteration from %s; documented: gfp/nu from true, lfp/mu from false' % (tok, got))
         # parse_fixed_point expects GFP when initial is true, LFP otherwise
-        t = lib.thir.get(PARSER + 'parse_fixed_point')
+        t = lib.ithir.get(PARSER + 'parse_fixed_point')
         ok = False
         if t:
             for e in walk(t['body']):
@@ -385,7 +385,7 @@ def rule_regex(F, R):
     if not ok: R.violation('rsbdd::parser::TOKENIZER / T / groups', 'T', 'named groups %s differ from the documented token classes %s' % (g, REF_GROUPS), loc)
     hg = tabs['groups'] if tabs else []
     # eof / comment are tested with .is_some(): collect every group name string passed to Captures::name
-    t = lib.thir.get(PARSER + 'tokenize')
+    t = lib.ithir.get(PARSER + 'tokenize')
     names = []
     for e in walk(t['body']):
         if e['k'] == 'Call' and callee_name(e) == 'regex::Captures::name':
